@@ -42,6 +42,20 @@ PURE_LIB: dict[str, T] = {
 }
 
 
+# A-TRANSC: the only facts known about transcendental / root functions over the reals
+# (instantiated at each application)
+REAL_AXIOMS = {
+    'numpy.sqrt': [lambda r, x: z3.Implies(x > 0, r > 0), lambda r, x: z3.Implies(x == 0, r == 0),
+                   lambda r, x: z3.Implies(x >= 0, r >= 0)],
+    'math.sqrt': [lambda r, x: z3.Implies(x > 0, r > 0), lambda r, x: z3.Implies(x == 0, r == 0),
+                  lambda r, x: z3.Implies(x >= 0, r >= 0)],
+    'numpy.exp': [lambda r, x: r > 0],
+    'math.exp': [lambda r, x: r > 0],
+    'numpy.abs': [lambda r, x: r == z3.If(x >= 0, x, -x)],
+    'scipy.stats.norm.cdf': [lambda r, x: z3.And(r >= 0, r <= 1)],
+}
+
+
 def canon_lib(dotted: str) -> str:
     if dotted.startswith('scipy.linalg.') or dotted.startswith('scipy.stats.'):
         return dotted
@@ -153,8 +167,7 @@ def subscript(ex, st: State, obj: V, sl, node) -> V:
         else:
             ex.oblige(st, 'safe:key', '', present, node)
         v = st.dict_get(obj, key)
-        for f in type_invariant(v):
-            st.assume(f)
+        st.assume_type(v)
         return v
     if isinstance(sl, ast.Slice):
         lo = ex.ev(st, sl.lower) if sl.lower is not None else None
@@ -196,16 +209,19 @@ def subscript(ex, st: State, obj: V, sl, node) -> V:
                 return obj.items[j]
         i = as_int(idx)
         n = st.list_len(obj)
-        i = z3.simplify(z3.If(i < 0, i + n, i))
-        inb = z3.And(i >= 0, i < n)
+        if st.is_nonneg(i):
+            i = z3.simplify(i)
+            inb = i < n
+        else:
+            i = z3.simplify(z3.If(i < 0, i + n, i))
+            inb = z3.And(i >= 0, i < n)
         if ex.catches(st, 'IndexError'):
             if not ex.decide(st, inb):
                 raise Raised('IndexError')
         else:
             ex.oblige(st, 'safe:index', '', inb, node)
         v = st.list_get(obj, i)
-        for f in type_invariant(v):
-            st.assume(f)
+        st.assume_type(v)
         return v
     if k == 'tuple':
         if obj.items is not None and idx.lit is not None:
@@ -1086,6 +1102,8 @@ def _s_forall(ex, st, args, kw, node, exists=False):
         j = z3.Int(fresh_name('q'))
         lo, hi = as_int(args[1]), as_int(args[2])
         rng = z3.And(j >= lo, j < hi)
+        if st.is_nonneg(lo):
+            st.mark_nonneg(j)
         st.bound.append((j, rng))
         try:
             body = ex.truth(st, _spec_lambda_call(ex, st, lam, [v_int(j)]))
@@ -1258,15 +1276,20 @@ def pure_call(ex, st, dotted: str, args, kwargs, rty: T | None) -> V:
     first = all_args[0] if all_args else None
     if rty is None:
         rty = first.ty if first is not None else ANY
+        if rty.kind == 'opt':
+            rty = rty.args[0]
         if rty.kind == 'int':
             rty = REAL
     if first is not None and rty.kind == 'real' and all(a.kind in ('int', 'real', 'bool') for a in all_args):
         f = uf(name + '$R', *([R] * len(all_args)), R)
-        return v_real(f(*[as_real(a) for a in all_args]))
+        xs = [as_real(a) for a in all_args]
+        res = f(*xs)
+        for ax in REAL_AXIOMS.get(dotted, []):
+            st.assume(ax(res, *xs))
+        return v_real(res)
     f = uf(name, *([Val] * len(all_args)), Val)
     res = V(f(*[ex.box(st, a) for a in all_args]), rty)
-    for fct in type_invariant(res):
-        st.assume(fct)
+    st.assume_type(res)
     if rty.kind == 'tuple':
         items, t = [], res.t
         for ety in rty.args:
@@ -1295,8 +1318,7 @@ def value_method(ex, st: State, recv: V, name: str, args, kwargs, node) -> V:
                'max': REAL, 'min': REAL}.get(name, recv.ty)
         f = uf(f'ndarray.{name}', *([Val] * (1 + len(args))), Val)
         res = V(f(recv.t, *[ex.box(st, a) for a in args]), rty)
-        for fct in type_invariant(res):
-            st.assume(fct)
+        st.assume_type(res)
         return res
     if k == 'tuple':
         if name == 'count' or name == 'index':
